@@ -8,6 +8,7 @@ import TealerModel.Spec.OpTable
 import TealerModel.Ast
 import TealerModel.Lemmas.StackEffect
 import TealerModel.Lemmas.OperandValues
+import TealerModel.Props.TieStackAst
 namespace Tealer.C11
 
 /-- every non-family opcode sample: class, printed form, pops, pushes, introduction version and mode built by the
@@ -182,5 +183,29 @@ theorem C11_block_operands (prog : List Ins) (e : Avm.Env) (blockIns : List Ins)
     simp [hjl]
   rw [this]
   exact hargs j hj
+
+/-- `construct_stack_ast` IS THE MODEL'S.  `Stack.pop_n_values` (with Python's negative slices and the `count == 0` guard, the
+    padding with UnknownStackValue when the block consumes values from before it), `Stack.push_n_values` and the loop of
+    `construct_stack_ast`, translated statement by statement from /repo's Python on this run (Generated/StackAst.lean), build for
+    every instruction `p` of every block exactly the tree that the model's operand references unfold to: what
+    `C11_operands_are_runtime_values` / `C11_block_operands` prove about `constructAst` is thereby a statement about the Python -/
+theorem C11_tie_construct_stack_ast (ins : List Ins) :
+    Generated.constructStackAst (TieS.insInfos ins) =
+      (List.range ins.length).map fun p => TieA.full (constructAst ins) (some (p, 0)) :=
+  TieS.construct_tie ins
+
+/-- ... and `TieA.full` is the tree the other tie theorems (leaf matchers, `_get_asserted`, block / edge constraints) are stated
+    for, at every depth beyond the position -/
+theorem C11_tie_tree_depth (ins : List Ins) (p o n : Nat) (h : p < n) :
+    treeOf (constructAst ins) n (some (p, o)) = TieA.full (constructAst ins) (some (p, o)) :=
+  TieA.full_eq _ (TieA.backward_constructAst ins) p o n h
+
+/-- non-vacuity / a test of the translation by the kernel: a block that consumes two values from before it at different times
+    (`==; assert; int 3; ==`): the second `==` gets an UNKNOWN first operand, not a stale producer -/
+example :
+    let ins : List Ins := [⟨1, .txn "GroupIndex", "txn GroupIndex"⟩, ⟨2, .cmp .eq, "=="⟩, ⟨3, .assert, "assert"⟩, ⟨4, .int (.lit 3), "int 3"⟩, ⟨5, .cmp .eq, "=="⟩]
+    (((Generated.constructStackAst (TieS.insInfos ins)).getD 4 .unknown).arg 0).isUnknown = true ∧
+      (((Generated.constructStackAst (TieS.insInfos ins)).getD 4 .unknown).arg 1).pos? = some 3 := by
+  decide +kernel
 
 end Tealer.C11
